@@ -19,7 +19,8 @@ RULE = ("Hypothesis draws a table (mixed-type cells; ragged rows where the funct
         "ragged row, a duplicate field name or a non-default argument form and has >= 2 data rows. Sub 'dupnames': on tables "
         "whose header repeats a field name, every way of reading that field by name (values, cut, the three mapping forms of "
         "fieldmap, record access in addfield/rowmap/records) must read the same column, and it must be a column of that name "
-        "(which one is not claimed). Distinct by digest.")
+        "(which one is not claimed). Sub 'setitem': two fieldmap / convert views configured by item assignment (the documented "
+        "suffix notation) are each exactly what they were given - no configuration leaks from one view to the next. Distinct by digest.")
 ASSUMPTIONS = [
     "negative *field* indices are undocumented and not generated; movefield only with the moved name unique",
     "skipcomments: rows with >= 1 cell (an empty row has no first value)",
@@ -857,7 +858,55 @@ def check_dup(case, ctx):
     return None
 
 
+# ---- views configured by item assignment: two views of one kind must not share their configuration ------------------
+@st.composite
+def setitem_case(draw, tier):
+    hdr = ["k", "j", "v"]
+    t1 = draw(gen.table(hdr, [gen.scalar] * 3, max_rows=4, min_rows=1))
+    t2 = draw(gen.table(hdr, [gen.scalar] * 3, max_rows=4, min_rows=1))
+    return {"t1": t1, "t2": t2, "kind": draw(st.sampled_from(["fieldmap", "convert"])),
+            "f1": draw(st.sampled_from(hdr)), "f2": draw(st.sampled_from(hdr)), "iterate_between": draw(st.booleans())}
+
+
+def check_setitem(case, ctx):
+    t1, t2, f1, f2 = case["t1"], case["t2"], case["f1"], case["f2"]
+    ctx.label("kind:" + case["kind"])
+    ctx.nontrivial(f1 != f2)
+    wrap = lambda v: ("w", v)  # noqa
+    try:
+        if case["kind"] == "fieldmap":
+            v1 = etl.fieldmap(codec.snapshot(t1))
+            v1["a"] = f1
+            if case["iterate_between"]:
+                list(v1)
+            v2 = etl.fieldmap(codec.snapshot(t2))
+            v2["b"] = (f2, wrap)
+            exp1 = [("a",)] + [(r[t1[0].index(f1)],) for r in t1[1:]]
+            exp2 = [("b",)] + [(wrap(r[t2[0].index(f2)]),) for r in t2[1:]]
+        else:
+            v1 = etl.convert(codec.snapshot(t1))
+            v1[f1] = wrap
+            if case["iterate_between"]:
+                list(v1)
+            v2 = etl.convert(codec.snapshot(t2))
+            v2[f2] = str
+            i1, i2 = t1[0].index(f1), t2[0].index(f2)
+            exp1 = [tuple(t1[0])] + [tuple(wrap(c) if i == i1 else c for i, c in enumerate(r)) for r in t1[1:]]
+            exp2 = [tuple(t2[0])] + [tuple(str(c) if i == i2 else c for i, c in enumerate(r)) for r in t2[1:]]
+        got2 = [tuple(r) for r in v2]
+        got1 = [tuple(r) for r in v1]
+    except Exception as ex:
+        return exc_fail("setitem/" + case["kind"], ex)
+    if not codec.strict_eq(got2, exp2):
+        return Fail("setitem/%s/second-view" % case["kind"], "a second %s view configured by item assignment gave %r, expected %r (a first view "
+                    "of the same kind had been given %r)" % (case["kind"], got2, exp2, f1))
+    if not codec.strict_eq(got1, exp1):
+        return Fail("setitem/%s/first-view" % case["kind"], "the first %s view gave %r, expected %r, after a second one was configured" % (case["kind"], got1, exp1))
+    return None
+
+
 SUBS = [Sub("rowops", check, strategy=case, quick=24000, thorough=400000),
+        Sub("setitem", check_setitem, strategy=setitem_case, quick=800, thorough=8000),
         Sub("dupnames", check_dup, strategy=dup_case, quick=1500, thorough=20000)]
 KNOWN = {}
 
